@@ -40,6 +40,7 @@ var c07Targets = [][2]string{
 	{"http://a.example/coll/", "http://a.example/coll/"},
 	{"http://a.example/coll/r1", "http://a.example/coll/x/%2e%2E/r1"},
 	{"http://a.example/coll/r1", "http://a.example/%2e/coll/.%2e/coll/r1"},
+	{"http://a.example/coll/r1", "http://a.example/coll/x/y/%2E%2E/../r1"},
 	{"http://[fe80::1%25eth0]/coll/r1", "HTTP://[FE80::1%25eth0]:80/coll/./r%31#frag"},
 }
 
